@@ -52,6 +52,35 @@ func IsHTTP(kind string) bool {
 type Entry struct {
 	Idx int
 	Tag string
+	// Pad: that many extra bytes in the entry (query string of a uri, body of uripost/raw/jsonline,
+	// payload of grpc/json, an extra field of the generic JSON ammo, uri/payload of a scenario request):
+	// the SIZE of an entry is a dimension of the ammo file (readers with a token limit, buffers).
+	Pad int
+}
+
+func (e Entry) pad() string { return strings.Repeat("x", e.Pad) }
+
+// uriOf is the request URI of entry e (the path identifies the entry, the padding is a query string).
+func uriOf(e Entry) string {
+	if e.Pad == 0 {
+		return fmt.Sprintf("/e%d", e.Idx)
+	}
+	return fmt.Sprintf("/e%d?p=%s", e.Idx, e.pad())
+}
+
+// EntrySizes renders the file of a kind and returns, per entry, the length in bytes of its longest
+// line (without the newline): what a line scanner has to hold as one token.
+func EntrySizes(kind string, es []Entry) []int {
+	out := make([]int, len(es))
+	for i, e := range es {
+		_, c := FileFor(kind, []Entry{e})
+		for _, l := range strings.Split(c, "\n") {
+			if len(l) > out[i] {
+				out[i] = len(l)
+			}
+		}
+	}
+	return out
 }
 
 func DefaultEntries(n int) []Entry {
@@ -65,6 +94,7 @@ func DefaultEntries(n int) []Entry {
 type jsonAmmo struct {
 	Tag string
 	ID  int
+	Pad string
 }
 
 // EOFLayouts: how the file ends (entry count and tags are the same in all of them).
@@ -107,15 +137,15 @@ func FileFor(kind string, es []Entry) (name string, content string) {
 	case "uri":
 		for _, e := range es {
 			if e.Tag == "" {
-				fmt.Fprintf(&b, "/e%d\n", e.Idx)
+				fmt.Fprintf(&b, "%s\n", uriOf(e))
 			} else {
-				fmt.Fprintf(&b, "/e%d %s\n", e.Idx, e.Tag)
+				fmt.Fprintf(&b, "%s %s\n", uriOf(e), e.Tag)
 			}
 		}
 		return "/ammo.uri", b.String()
 	case "uripost":
 		for _, e := range es {
-			body := fmt.Sprintf("body%d", e.Idx)
+			body := fmt.Sprintf("body%d", e.Idx) + e.pad()
 			if e.Tag == "" {
 				fmt.Fprintf(&b, "%d /e%d\n%s\n", len(body), e.Idx, body)
 			} else {
@@ -125,7 +155,7 @@ func FileFor(kind string, es []Entry) (name string, content string) {
 		return "/ammo.uripost", b.String()
 	case "raw":
 		for _, e := range es {
-			body := fmt.Sprintf("rb%d", e.Idx)
+			body := fmt.Sprintf("rb%d", e.Idx) + e.pad()
 			req := fmt.Sprintf("POST /e%d HTTP/1.1\r\nHost: h\r\nContent-Length: %d\r\n\r\n%s", e.Idx, len(body), body)
 			hdr := strconv.Itoa(len(req))
 			if e.Tag != "" {
@@ -136,7 +166,7 @@ func FileFor(kind string, es []Entry) (name string, content string) {
 		return "/ammo.raw", b.String()
 	case "jsonl":
 		for _, e := range es {
-			fmt.Fprintf(&b, "{\"host\":\"h\",\"method\":\"POST\",\"uri\":\"/e%d\",\"tag\":\"%s\",\"body\":\"jb%d\"}\n", e.Idx, e.Tag, e.Idx)
+			fmt.Fprintf(&b, "{\"host\":\"h\",\"method\":\"POST\",\"uri\":\"/e%d\",\"tag\":\"%s\",\"body\":\"jb%d%s\"}\n", e.Idx, e.Tag, e.Idx, e.pad())
 		}
 		return "/ammo.jsonl", b.String()
 	case "jsona":
@@ -145,24 +175,32 @@ func FileFor(kind string, es []Entry) (name string, content string) {
 			if i > 0 {
 				b.WriteString(",\n")
 			}
-			fmt.Fprintf(&b, "{\"host\":\"h\",\"method\":\"POST\",\"uri\":\"/e%d\",\"tag\":\"%s\",\"body\":\"jb%d\"}", e.Idx, e.Tag, e.Idx)
+			fmt.Fprintf(&b, "{\"host\":\"h\",\"method\":\"POST\",\"uri\":\"/e%d\",\"tag\":\"%s\",\"body\":\"jb%d%s\"}", e.Idx, e.Tag, e.Idx, e.pad())
 		}
 		b.WriteString("]\n")
 		return "/ammo.json", b.String() // zero entries: the empty array "[]"
 	case "grpcjson":
 		for _, e := range es {
-			fmt.Fprintf(&b, "{\"tag\":\"%s\",\"call\":\"svc.M%d\",\"payload\":{\"i\":%d}}\n", e.Tag, e.Idx, e.Idx)
+			if e.Pad == 0 {
+				fmt.Fprintf(&b, "{\"tag\":\"%s\",\"call\":\"svc.M%d\",\"payload\":{\"i\":%d}}\n", e.Tag, e.Idx, e.Idx)
+			} else {
+				fmt.Fprintf(&b, "{\"tag\":\"%s\",\"call\":\"svc.M%d\",\"payload\":{\"i\":%d,\"p\":\"%s\"}}\n", e.Tag, e.Idx, e.Idx, e.pad())
+			}
 		}
 		return "/ammo.grpc.json", b.String()
 	case "decode":
 		for _, e := range es {
-			fmt.Fprintf(&b, "{\"Tag\":\"%s\",\"ID\":%d}\n", e.Tag, e.Idx)
+			if e.Pad == 0 {
+				fmt.Fprintf(&b, "{\"Tag\":\"%s\",\"ID\":%d}\n", e.Tag, e.Idx)
+			} else {
+				fmt.Fprintf(&b, "{\"Tag\":\"%s\",\"ID\":%d,\"Pad\":\"%s\"}\n", e.Tag, e.Idx, e.pad())
+			}
 		}
 		return "/ammo.dec.json", b.String()
 	case "scenhttp":
 		b.WriteString("requests:\n")
 		for _, e := range es {
-			fmt.Fprintf(&b, "  - name: r%d\n    method: GET\n    uri: /e%d\n    tag: %s\n", e.Idx, e.Idx, e.Tag)
+			fmt.Fprintf(&b, "  - name: r%d\n    method: GET\n    uri: %s\n    tag: %s\n", e.Idx, uriOf(e), e.Tag)
 		}
 		if len(es) == 0 {
 			return "/scen-http.yaml", "requests: []\nscenarios: []\n"
@@ -175,7 +213,11 @@ func FileFor(kind string, es []Entry) (name string, content string) {
 	case "scengrpc":
 		b.WriteString("calls:\n")
 		for _, e := range es {
-			fmt.Fprintf(&b, "  - name: c%d\n    tag: %s\n    call: svc.M%d\n    payload: '{}'\n", e.Idx, e.Tag, e.Idx)
+			if e.Pad == 0 {
+				fmt.Fprintf(&b, "  - name: c%d\n    tag: %s\n    call: svc.M%d\n    payload: '{}'\n", e.Idx, e.Tag, e.Idx)
+			} else {
+				fmt.Fprintf(&b, "  - name: c%d\n    tag: %s\n    call: svc.M%d\n    payload: '{\"p\":\"%s\"}'\n", e.Idx, e.Tag, e.Idx, e.pad())
+			}
 		}
 		if len(es) == 0 {
 			return "/scen-grpc.yaml", "calls: []\nscenarios: []\n"
@@ -208,11 +250,11 @@ func ExpectedHTTP(kind string, e Entry) (method, body string) {
 	case "uri":
 		return "GET", ""
 	case "uripost":
-		return "POST", fmt.Sprintf("body%d", e.Idx)
+		return "POST", fmt.Sprintf("body%d", e.Idx) + e.pad()
 	case "raw":
-		return "POST", fmt.Sprintf("rb%d", e.Idx)
+		return "POST", fmt.Sprintf("rb%d", e.Idx) + e.pad()
 	}
-	return "POST", fmt.Sprintf("jb%d", e.Idx)
+	return "POST", fmt.Sprintf("jb%d", e.Idx) + e.pad()
 }
 
 func idxOf(s, prefix string) int {
@@ -240,6 +282,19 @@ func BuildEOF(kind string, preload bool, limit, passes int, es []Entry, chosen [
 // file system through an AuditFs, which counts opens, closes and operations on closed handles.
 // Call Built.Cleanup when done (removes the scratch directory of an OS cell).
 func BuildFS(kind string, preload bool, limit, passes int, es []Entry, chosen []string, eof int, fsKind int) (b *Built, err error) {
+	return BuildFSOpt(kind, preload, limit, passes, es, chosen, eof, fsKind, Opts{})
+}
+
+// Opts: the options of a provider configuration, besides limit / passes / preload / chosencases, that
+// bear on how the ammo file is read.
+type Opts struct {
+	// MaxAmmoSize: config key maxammosize of the http providers, of grpc/json and of the scenario
+	// providers ("maximum number of byte in an ammo"; 0 = not set). The generic JSON provider has none.
+	MaxAmmoSize int
+}
+
+// BuildFSOpt is BuildFS with the remaining reading options of the provider set.
+func BuildFSOpt(kind string, preload bool, limit, passes int, es []Entry, chosen []string, eof int, fsKind int, opts Opts) (b *Built, err error) {
 	cleanup := func() {}
 	defer func() {
 		if r := recover(); r != nil {
@@ -281,7 +336,7 @@ func BuildFS(kind string, preload bool, limit, passes int, es []Entry, chosen []
 		dec := map[string]config.DecoderType{"uri": config.DecoderURI, "uripost": config.DecoderURIPost,
 			"raw": config.DecoderRaw, "jsonl": config.DecoderJSONLine, "jsona": config.DecoderJSONLine}[kind]
 		p, err := phttp.NewProvider(fs, config.Config{Decoder: dec, File: name, Limit: uint(limit), Passes: uint(passes),
-			Preload: preload, ChosenCases: chosen})
+			Preload: preload, ChosenCases: chosen, MaxAmmoSize: opts.MaxAmmoSize})
 		if err != nil {
 			return nil, err
 		}
@@ -329,7 +384,7 @@ func BuildFS(kind string, preload bool, limit, passes int, es []Entry, chosen []
 		}
 		return &Built{P: p, Ident: ident, Full: full}, nil
 	case "grpcjson":
-		p := grpcjson.NewProvider(fs, grpcjson.Config{File: name, Limit: limit, Passes: passes, ChosenCases: chosen})
+		p := grpcjson.NewProvider(fs, grpcjson.Config{File: name, Limit: limit, Passes: passes, ChosenCases: chosen, MaxAmmoSize: opts.MaxAmmoSize})
 		return &Built{P: p, Ident: func(a core.Ammo) int {
 			ga, ok := a.(*grpcammo.Ammo)
 			if !ok {
@@ -338,7 +393,7 @@ func BuildFS(kind string, preload bool, limit, passes int, es []Entry, chosen []
 			return idxOf(ga.Call, "svc.M")
 		}}, nil
 	case "scenhttp":
-		p, err := scenhttp.NewProvider(fs, scenario.ProviderConfig{File: name, Limit: uint(limit), Passes: uint(passes)})
+		p, err := scenhttp.NewProvider(fs, scenario.ProviderConfig{File: name, Limit: uint(limit), Passes: uint(passes), MaxAmmoSize: opts.MaxAmmoSize})
 		if err != nil {
 			return nil, err
 		}
@@ -350,7 +405,7 @@ func BuildFS(kind string, preload bool, limit, passes int, es []Entry, chosen []
 			return idxOf(sa.Name, "s")
 		}}, nil
 	case "scengrpc":
-		p, err := scengrpc.NewProvider(fs, scenario.ProviderConfig{File: name, Limit: uint(limit), Passes: uint(passes)})
+		p, err := scengrpc.NewProvider(fs, scenario.ProviderConfig{File: name, Limit: uint(limit), Passes: uint(passes), MaxAmmoSize: opts.MaxAmmoSize})
 		if err != nil {
 			return nil, err
 		}
